@@ -160,6 +160,20 @@ def families(tier):
         out.append(('bin', '=', ('bin', '+', b_, num(1)), ('bin', '+', num(1), b_)))
         out.append(('bin', '=', ('bin', '-', ('bin', '+', b_, num(1)), b_), num(1)))
         out.append(('bin', '>', ('bin', '*', b_, num(2)), b_))
+    # F11: power laws that only hold for some bases / exponents: towers, products and quotients of powers with
+    # literal exponents of every kind (even, odd, fractional, negative, 0, 1), roots of squares
+    exps = [num(2), num(3), ('lit', '0.5', 0.5), ('lit', '1.5', 1.5), ('un', '-', num(1)), ('un', '-', num(2)), num(1), num(0), num(4)]
+    for base in (x, ax, ('un', '-', x), ('var', 'v')):
+        for e1 in exps:
+            for e2 in exps:
+                out.append(('bin', '<', ('bin', '**', ('bin', '**', base, e1), e2), y))
+                out.append(('bin', '=', ('bin', '**', base, ('bin', '**', e1, e2)), y))
+                out.append(('bin', '>', ('bin', '*', ('bin', '**', base, e1), ('bin', '**', base, e2)), y))
+                out.append(('bin', '>', ('bin', '/', ('bin', '**', base, e1), ('bin', '**', base, e2)), y))
+            out.append(('bin', '=', ('bin', '**', ('bin', '*', base, y), e1), ('bin', '*', ('bin', '**', base, e1), ('bin', '**', y, e1))))
+            out.append(('bin', '=', ('call', 'sqrt', (('bin', '**', base, e1),)), base))
+            out.append(('bin', '=', ('bin', '**', ('call', 'abs', (base,)), e1), ('bin', '**', base, e1)))
+            out.append(('bin', '=', ('bin', '**', ('call', 'sqrt', (base,)), e1), base))
     # F8: a compound operand next to its own negation (the "obvious negatives" shortcuts on non-atomic operands)
     bcores = [('bin', 'and', p, q), ('bin', 'or', p, q), ('bin', '>', x, num(0)), ('bin', 'implies', p, q), ('un', 'not', p), ('bin', '=', x, y), ('bin', 'in', x, tf('xs'))]
     for c in bcores:
@@ -608,7 +622,7 @@ def _detuple(x):
 def describe(tier):
     b = bounds(tier)
     return {
-        'rule': f"every Bool/Num term with <= {b['nodes']} nodes over fields x y @A.x p q xs, literals 0 1 2 True False, all 16 binary and 2 unary operators, abs, sets (1-3 elements), ranges (4 bracket forms), both quantifiers over arrays/sets/ranges, plus 8 shape-directed families (aggregates over sets/ranges, regrouping chains, comparison-with-own-operand, nested equalities, duplicate-member chains, foldable sets, numeric function folding, a compound operand next to its own negation) and 7 API-built predicates with literal conditions; each x all valuations over numbers {{-1,0,1,2}}, booleans, arrays {{[],[0],[1,2],[1,1]}}; x set-iteration orders with <= {b['set_order_deviations']} deviating calls. A state = one term (distinct by construction); a transition = one real simplify call; validated = terms whose simplify result was compared with the reference evaluator on every valuation.",
+        'rule': f"every Bool/Num term with <= {b['nodes']} nodes over fields x y @A.x p q xs, literals 0 1 2 True False, all 16 binary and 2 unary operators, abs, sets (1-3 elements), ranges (4 bracket forms), both quantifiers over arrays/sets/ranges, plus 8 shape-directed families (aggregates over sets/ranges, regrouping chains, comparison-with-own-operand, nested equalities, duplicate-member chains, foldable sets, numeric function folding, a compound operand next to its own negation) and 7 API-built predicates with literal conditions, power laws (towers, products, quotients of powers with literal exponents 2 3 0.5 1.5 -1 -2 1 0 4 over 4 bases, roots of powers); each x all valuations over numbers {{-1,0,1,2}}, booleans, arrays {{[],[0],[1,2],[1,1]}}; x set-iteration orders with <= {b['set_order_deviations']} deviating calls. A state = one term (distinct by construction); a transition = one real simplify call; validated = terms whose simplify result was compared with the reference evaluator on every valuation.",
         'bounds': b,
         'exhaustive': True,
         'assumptions': [
